@@ -2,42 +2,180 @@ import Upf.Model.Conf
 
 namespace Conf
 
-theorem finish_valid (P : Preds) (raw c : C) (h : finish P raw = some c) : Valid P raw c := by
-  unfold finish at h
-  simp only at h
-  split at h
-  · rename_i hv
-    cases h
-    unfold validate at hv
-    simp only [Bool.and_eq_true] at hv
-    obtain ⟨⟨⟨⟨⟨⟨h1, h2⟩, h3⟩, h4⟩, h5⟩, h6⟩, h7⟩ := hv
-    refine ⟨⟨h4, ?_⟩, ⟨by simpa using h5, ?_⟩, ⟨by simpa using h6, ?_⟩, ?_, ?_, ?_, ?_, ?_⟩
-    · intro e; simp [defaults, e]
-    · intro e; simp [defaults, e]
-    · intro e; simp [defaults, e]
-    · intro he
-      have he' : raw.enableHB = true := he
-      simp only [defaults, he', if_true] at h7 ⊢
-      exact ⟨h7, fun e => by simp [e]⟩
-    · by_cases hp : raw.enableP4rt = true
-      · have : (defaults raw).enableP4rt = true := hp
-        simp only [this, if_true] at h1 ⊢
-        simp only [Bool.and_eq_true, beq_iff_eq] at h1
-        exact ⟨h1.2, h1.1.1, h1.1.2⟩
-      · have hf : (defaults raw).enableP4rt = false := by
-          cases h' : raw.enableP4rt <;> simp_all [defaults]
-        simp only [hf] at h1 ⊢
-        simpa using h1
-    · intro he
-      have : (defaults raw).enableUeIPAlloc = true := he
-      simp only [this, if_true] at h2
-      exact h2
-    · intro p hp
-      exact List.all_eq_true.mp h3 p hp
-    · simp [defaults]
-  · cases h
+/-! ## the regenerated constants are the documented defaults -/
 
-#print axioms finish_valid
+theorem respTimeoutDefaultStr_eq : respTimeoutDefaultStr = "2s" := by decide
+theorem hbIntervalDefaultStr_eq : hbIntervalDefaultStr = "5s" := by decide
+theorem readTimeoutDefaultSecs_eq : readTimeoutDefaultSecs = 15 := by decide
+theorem maxReqRetriesDefault_eq : maxReqRetriesDefault = 5 := by decide
+theorem modes_eq : modes = ["af_packet", "af_xdp", "cndp", "dpdk", "sim"] := by decide
+theorem init_logLevel : init.logLevel = infoLevel := by decide
+theorem init_defaultTC : init.defaultTC = elasticTC := by decide
+
+theorem mem_modes (m : String) : m ∈ modes ↔ m ∈ ["af_xdp", "af_packet", "cndp", "dpdk", "sim"] := by
+  rw [modes_eq]
+  simp only [List.mem_cons, List.not_mem_nil, or_false]
+  constructor <;> intro h <;> rcases h with h | h | h | h | h <;> simp [h]
+
+theorem mem_modes' (m : String) :
+    m ∈ modes ↔ (m = "af_xdp" ∨ m = "af_packet" ∨ m = "cndp" ∨ m = "dpdk" ∨ m = "sim") := by
+  rw [mem_modes]; simp
+
+/-! ## validation -/
+
+theorem check_none (b : Bool) (e : Err) : check b e = none ↔ b = false := by
+  unfold check; cases b <;> simp
+
+theorem check_some (b : Bool) (e e' : Err) : check b e = some e' ↔ b = true ∧ e' = e := by
+  unfold check; cases b <;> simp [eq_comm]
+
+/-- no check refuses iff the configuration is sound -/
+theorem validate_none_iff (P : Preds) (c : C) : validate P c = none ↔ Sound P c := by
+  unfold validate checks Sound
+  simp only [List.findSome?_eq_none_iff, List.mem_cons, List.not_mem_nil, or_false, id, forall_eq_or_imp, forall_eq,
+    check_none, Option.map_eq_none_iff, List.find?_eq_none]
+  have hm := mem_modes' c.mode
+  cases hp : c.enableP4rt <;> cases ha : c.enableUeIPAlloc <;> cases hh : c.enableHB <;>
+    simp <;> (try constructor) <;> (try intro h) <;> simp_all
+
+/-- what a refusal means, error by error -/
+def ErrMeans (P : Preds) (c : C) : Err → Prop
+  | .decode => False
+  | .accessIP => c.enableP4rt = true ∧ P.cidr c.accessIP = false
+  | .uePoolP4 => c.enableP4rt = true ∧ P.cidr c.uePool = false
+  | .modeP4 => c.enableP4rt = true ∧ c.mode ≠ ""
+  | .modeBess => c.enableP4rt = false ∧ c.mode ∉ modes
+  | .uePoolAlloc => c.enableUeIPAlloc = true ∧ P.cidr c.uePool = false
+  | .peer p => p ∈ c.peers ∧ P.ip p = false
+  | .respTimeout => P.dur c.respTimeout = false
+  | .readTimeout => c.readTimeout = 0
+  | .retries => c.maxReqRetries = 0
+  | .hbInterval => c.enableHB = true ∧ P.dur c.hbInterval = false
+
+theorem validate_some_means (P : Preds) (c : C) (e : Err) (h : validate P c = some e) : ErrMeans P c e := by
+  unfold validate at h
+  obtain ⟨a, ha, hae⟩ := List.exists_of_findSome?_eq_some h
+  simp only [id] at hae
+  subst hae
+  simp only [checks, List.mem_cons, List.not_mem_nil, or_false] at ha
+  rcases ha with ha | ha | ha | ha | ha | ha | ha | ha | ha | ha
+  all_goals first
+    | (have ha' := (check_some _ _ _).mp ha.symm
+       obtain ⟨hb, rfl⟩ := ha'
+       simp [ErrMeans] at hb ⊢
+       simp_all)
+    | skip
+  · -- the peer
+    have ha' := ha.symm
+    simp only [Option.map_eq_some_iff] at ha'
+    obtain ⟨p, hp, rfl⟩ := ha'
+    have h1 := List.mem_of_find?_eq_some hp
+    have h2 := List.find?_some hp
+    simp [ErrMeans, h1] at h2 ⊢
+    exact h2
+
+/-- a refusal never happens on a sound configuration, and a sound configuration is never refused -/
+theorem validate_some_not_sound (P : Preds) (c : C) (e : Err) (h : validate P c = some e) : ¬ Sound P c := by
+  intro hs
+  rw [(validate_none_iff P c).mpr hs] at h
+  cases h
+
+/-! ## defaults -/
+
+theorem defaults_filled (raw : C) : Filled raw (defaults raw) := by
+  unfold Filled defaults
+  simp only [respTimeoutDefaultStr_eq, hbIntervalDefaultStr_eq, readTimeoutDefaultSecs_eq, maxReqRetriesDefault_eq]
+  refine ⟨trivial, trivial, trivial, ?_, ?_, trivial, trivial, trivial, trivial, trivial, trivial, trivial, trivial, trivial⟩
+  · intro h; simp [h]
+  · intro h; simp [h]
+
+theorem defaults_idem (raw : C) : defaults (defaults raw) = defaults raw := by
+  unfold defaults
+  simp only [respTimeoutDefaultStr_eq, hbIntervalDefaultStr_eq, readTimeoutDefaultSecs_eq, maxReqRetriesDefault_eq]
+  cases raw with
+  | mk mode p4 acc pool alloc peers resp read retr hb hbi lvl tc =>
+    simp only [C.mk.injEq, true_and]
+    refine ⟨?_, ?_, ?_, ?_⟩
+    · by_cases h : resp = "" <;> simp [h]
+    · by_cases h : read = 0 <;> simp [h]
+    · by_cases h : retr = 0 <;> simp [h]
+    · by_cases h : hb = true ∧ hbi = ""
+      · simp [h]
+      · simp [h]
+
+/-! ## finish = defaults ; validate -/
+
+theorem finish_ok_iff (P : Preds) (raw c : C) : finish P raw = .ok c ↔ c = defaults raw ∧ Sound P (defaults raw) := by
+  unfold finish
+  simp only
+  cases hv : validate P (defaults raw) with
+  | none =>
+    have := (validate_none_iff P _).mp hv
+    simp [this, eq_comm]
+  | some e =>
+    have := validate_some_not_sound P _ e hv
+    simp [this]
+
+theorem finish_error_iff (P : Preds) (raw : C) (e : Err) :
+    finish P raw = .error e ↔ validate P (defaults raw) = some e := by
+  unfold finish
+  simp only
+  cases hv : validate P (defaults raw) <;> simp
+
+theorem finish_valid (P : Preds) (raw c : C) (h : finish P raw = .ok c) : Valid P raw c := by
+  obtain ⟨rfl, hs⟩ := (finish_ok_iff P raw c).mp h
+  exact ⟨hs, defaults_filled raw⟩
+
+/-- refusal is justified: the error names a check that the configuration (with defaults) really fails -/
+theorem finish_error_means (P : Preds) (raw : C) (e : Err) (h : finish P raw = .error e) :
+    ErrMeans P (defaults raw) e ∧ ¬ Sound P (defaults raw) := by
+  have hv := (finish_error_iff P raw e).mp h
+  exact ⟨validate_some_means P _ e hv, validate_some_not_sound P _ e hv⟩
+
+/-- after the defaults the two `== 0` checks of `validateConf` cannot fire (they are dead code in `LoadConfigFile`) -/
+theorem finish_zero_checks_dead (P : Preds) (raw : C) :
+    finish P raw ≠ .error .readTimeout ∧ finish P raw ≠ .error .retries ∧ finish P raw ≠ .error .decode := by
+  refine ⟨?_, ?_, ?_⟩ <;> intro h <;> have hm := (finish_error_means P raw _ h).1
+  · simp only [ErrMeans, defaults, readTimeoutDefaultSecs_eq] at hm
+    split at hm <;> simp_all
+  · simp only [ErrMeans, defaults, maxReqRetriesDefault_eq] at hm
+    split at hm <;> simp_all
+  · exact hm
+
+/-! ## decode ; finish -/
+
+theorem load_ok_iff (P : Preds) (d : Doc) (c : C) :
+    load P d = .ok c ↔ ∃ raw, decode P d = some raw ∧ finish P raw = .ok c := by
+  unfold load
+  cases decode P d <;> simp
+
+theorem load_valid (P : Preds) (d : Doc) (c : C) (h : load P d = .ok c) :
+    ∃ raw, decode P d = some raw ∧ Valid P raw c := by
+  obtain ⟨raw, hd, hf⟩ := (load_ok_iff P d c).mp h
+  exact ⟨raw, hd, finish_valid P raw c hf⟩
+
+theorem load_decode_error_iff (P : Preds) (d : Doc) : load P d = .error .decode ↔ decode P d = none := by
+  unfold load
+  cases hd : decode P d with
+  | none => simp
+  | some raw =>
+    have := (finish_zero_checks_dead P raw).2.2
+    simp only [reduceCtorEq, iff_false]
+    exact this
+
+theorem decode_fields (P : Preds) (d : Doc) (raw : C) (h : decode P d = some raw) :
+    decStr "" d.mode = some raw.mode ∧ decBool false d.enableP4rt = some raw.enableP4rt ∧
+    decStr "" d.accessIP = some raw.accessIP ∧ decStr "" d.uePool = some raw.uePool ∧
+    decBool false d.enableUeIPAlloc = some raw.enableUeIPAlloc ∧ decPeers d.peers = some raw.peers ∧
+    decStr "" d.respTimeout = some raw.respTimeout ∧ decUint 32 0 d.readTimeout = some raw.readTimeout ∧
+    decUint 8 0 d.maxReqRetries = some raw.maxReqRetries ∧ decBool false d.enableHB = some raw.enableHB ∧
+    decStr "" d.hbInterval = some raw.hbInterval ∧ decLevel P infoLevel d.logLevel = some raw.logLevel ∧
+    decUint 8 elasticTC d.defaultTC = some raw.defaultTC := by
+  unfold decode at h
+  simp only [Option.bind_eq_bind, Option.bind_eq_some_iff, Option.pure_def, Option.some.injEq] at h
+  obtain ⟨_, h1, _, h2, _, h3, _, h4, _, h5, _, h6, _, h7, _, h8, _, h9, _, h10, _, h11, _, h12, _, h13, rfl⟩ := h
+  rw [init_logLevel] at h12
+  rw [init_defaultTC] at h13
+  exact ⟨h1, h2, h3, h4, h5, h6, h7, h8, h9, h10, h11, h12, h13⟩
 
 end Conf
-
